@@ -192,5 +192,17 @@ func (h *Header) Map() http.Header {
 		hm[k] = vs
 	}
 
+	// net/http writes a message from its fields and never sends an entry of
+	// the header map for these names. A message read off the wire keeps its
+	// original Content-Length in the map: once the length is unknown (-1), or
+	// no transfer coding is set, an entry left in the map describes a header
+	// that is not part of the message anymore.
+	if h.cl() < 0 {
+		delete(hm, "Content-Length")
+	}
+	if h.te() == nil {
+		delete(hm, "Transfer-Encoding")
+	}
+
 	return hm
 }
